@@ -259,8 +259,8 @@ class _P(object):
                 self.need_op("]")
                 return ("STRING", n)
             if self.is_op("<") and self.is_op("<>", 1) and self.is_op(">", 2):
-                self.i += 3
-                return ("STRING", "placeholder")
+                # the library's size tag is not BASIC09: it must have been replaced before anything is emitted
+                raise B09SyntaxError("unreplaced size tag STRING<<>>", self.lineno, None, self.text)
             return ("STRING", 32)
         if up in ("BYTE", "INTEGER", "REAL", "BOOLEAN"):
             return (up,)
